@@ -9,6 +9,8 @@ import (
 	"os"
 	"runtime"
 	"sync"
+	"sync/atomic"
+	"time"
 
 	"github.com/unixpickle/model3d/model3d"
 	"verif/vlib"
@@ -62,6 +64,10 @@ func main() {
 	r.Require("bitmap.meshes", 1000)
 	r.Finish()
 }
+
+// procsChange, when set (section mc.procs-changed only, which runs alone), makes the mesh of one
+// method while GOMAXPROCS changes during the call.
+var procsChange func(c *vlib.Case, p *vlib.Packed3, m method) *model3d.Mesh
 
 type method struct {
 	name  string
@@ -163,7 +169,12 @@ func runPacked(c *vlib.Case, class string, patterns [][]bool, dims [3]int, ms []
 	}
 	c.Count("mc.ambiguous_face_pairs", int64(amb))
 	for _, m := range ms {
-		mesh := m.run(p)
+		var mesh *model3d.Mesh
+		if procsChange != nil {
+			mesh = procsChange(c, p, m)
+		} else {
+			mesh = m.run(p)
+		}
 		blocks, straddle := p.Split(vlib.Tris(mesh))
 		if straddle > 0 {
 			c.Violation("model3d."+apiName(m.name)+"/triangle-spans-separated-patterns", fmt.Sprintf("%d triangles connect lattice regions separated by two empty layers", straddle), map[string]interface{}{"class": class, "method": m.name})
@@ -404,6 +415,42 @@ func lattice3(r *vlib.Run) {
 		dims := [3]int{n, 3 + c.Rng.Intn(n), 3 + c.Rng.Intn(n)}
 		pat := randomLattice(c.Rng, dims)
 		runPacked(c, "singleproc", [][]bool{pat}, dims, []method{ms[0], ms[1+c.Rng.Intn(len(ms)-1)]})
+	})
+	// the number of processors changes while one meshing call is under way (a tuning library, a new
+	// CPU quota): the solid lowers or raises GOMAXPROCS at its k-th query
+	r.Section("mc.procs-changed", r.N(16, 160), vlib.SectionOpts{Sequential: true, Watchdog: 2 * time.Minute}, func(c *vlib.Case) {
+		old := runtime.GOMAXPROCS(0)
+		defer runtime.GOMAXPROCS(old)
+		procsChange = func(c *vlib.Case, p *vlib.Packed3, m method) *model3d.Mesh {
+			from, to := []int{4, 8, 16}[c.Rng.Intn(3)], 1+c.Rng.Intn(3)
+			if c.Rng.Intn(5) == 0 {
+				from, to = to, from
+			}
+			var total atomic.Int64
+			oldHook := p.Solid.Hook
+			p.Solid.Hook = func(C3) { total.Add(1) }
+			m.run(p)
+			at := int64(1)
+			if c.Rng.Intn(3) != 0 {
+				at = 1 + c.Rng.Int63n(total.Load()+1)
+			}
+			var calls atomic.Int64
+			p.Solid.Hook = func(C3) {
+				if calls.Add(1) == at {
+					runtime.GOMAXPROCS(to)
+				}
+			}
+			runtime.GOMAXPROCS(from)
+			mesh := m.run(p)
+			p.Solid.Hook = oldHook
+			c.Count("mc.meshes_made_while_gomaxprocs_changed", 1)
+			return mesh
+		}
+		defer func() { procsChange = nil }()
+		n := 4 + c.Rng.Intn(6)
+		dims := [3]int{n, 3 + c.Rng.Intn(n), 3 + c.Rng.Intn(n)}
+		pat := randomLattice(c.Rng, dims)
+		runPacked(c, "procs-changed", [][]bool{pat}, dims, []method{ms[c.Rng.Intn(3)], ms[3+c.Rng.Intn(len(ms)-3)]})
 	})
 	// coarse-to-fine on smooth solids (lattice solids violate its documented precondition)
 	r.Section("mc.c2f", r.N(12, 100), vlib.SectionOpts{}, func(c *vlib.Case) {
